@@ -12,6 +12,7 @@ Round-trip and twin-call monitors over the real ``pydrobert.torch.data`` entry p
 * every writer/reader is called once with a path and once with an open file: identical bytes / results;
 * token tensors   token_to_transcript(transcript_to_token(T)) gives the same tokens, times within one frame shift.
 """
+import collections.abc
 import io
 import os
 import shutil
@@ -277,6 +278,22 @@ def _exec_trn(case, mon, tmp):
 # ----------------------------------------------------------------------------- ctm
 
 
+class _ReadOnlyMapping(collections.abc.Mapping):
+    """a Mapping that is not a dict"""
+
+    def __init__(self, d):
+        self._d = dict(d)
+
+    def __getitem__(self, k):
+        return self._d[k]
+
+    def __iter__(self):
+        return iter(self._d)
+
+    def __len__(self):
+        return len(self._d)
+
+
 def _exec_ctm(case, mon, tmp):
     import pydrobert.torch.data as D
 
@@ -288,6 +305,15 @@ def _exec_ctm(case, mon, tmp):
     if case["utt2wc"] is not None:
         kw["utt2wc"] = {u: tuple(p) for u, p in case["utt2wc"].items()}
         wc_of = dict(kw["utt2wc"])
+        # the mapping as a caller may hold it: the argument is documented as a Mapping, not as a dict
+        form = (len(T) + sum(len(tr) for _, tr in T)) % 3
+        if form == 1:
+            import types
+
+            kw["utt2wc"] = types.MappingProxyType(dict(wc_of))
+        elif form == 2:
+            kw["utt2wc"] = _ReadOnlyMapping(wc_of)
+        mon.cls("ctm_utt2wc_as_" + ("dict", "mappingproxy", "custom_mapping")[form])
         wc2utt = {p: u for u, p in kw["utt2wc"].items()}
         waves = [p[0] for u, p in kw["utt2wc"].items() if any(uu == u and tr for uu, tr in T)]
         if len(set(waves)) < len(waves):
